@@ -235,6 +235,7 @@ func (ex *Exec) load(p Value, t types.Type) Value {
 	ex.nilCheck(p, "load")
 	switch p := p.(type) {
 	case Ptr:
+		ex.noteAccess(p.Loc, false)
 		v := *p.Loc
 		// reinterpretation between integers and byte arrays (unsafe casts)
 		if ba, ok := v.(BArr); ok {
@@ -283,6 +284,7 @@ func (ex *Exec) store(p Value, v Value, vt types.Type) {
 	ex.nilCheck(p, "store")
 	switch p := p.(type) {
 	case Ptr:
+		ex.noteAccess(p.Loc, true)
 		// keep int <-> [n]byte punning coherent
 		if cur, ok := (*p.Loc).(BArr); ok {
 			if iv, ok := v.(*term.T); ok && iv.W >= 8 {
